@@ -13,6 +13,7 @@ clock, no randomness except random.Random seeded from the spec.
 # pylint: disable=too-many-branches,too-many-statements,too-many-locals,broad-except,import-outside-toplevel
 
 import gc
+import hashlib
 import io
 import json
 import logging
@@ -75,6 +76,7 @@ class Session:
         if not verif_hooks.ENABLED:
             raise RuntimeError("TEALER_VERIF hook is not enabled")
         verif_hooks.install_scheduler(self._schedule)
+        self.s1_free = self._order_is_free()
         from tealer.detectors import all_detectors
         from tealer.detectors.abstract_detector import AbstractDetector
         from tealer.printers import all_printers
@@ -92,12 +94,39 @@ class Session:
             if inspect.isclass(d) and issubclass(d, AbstractPrinter) and getattr(d, "NAME", ""):
                 self.printers[d.NAME] = d
 
+    @staticmethod
+    def _order_is_free() -> bool:
+        """Does Subroutine.called_subroutines (still) derive its order from iterating a set?  Only
+        then is "any order of that list" inside what C14 quantifies over ("worklist orders induced by
+        set iteration"); when the code fixes the order itself, permuting it would test more than the
+        property states.  Decided from the source of the code under test, per interpreter."""
+        import ast
+        import inspect
+        import textwrap
+        from tealer.teal.subroutine import Subroutine
+
+        try:
+            fn = Subroutine.called_subroutines.fget
+            fn = getattr(fn, "__wrapped__", fn)
+            tree = ast.parse(textwrap.dedent(inspect.getsource(fn)))
+        except (OSError, TypeError, SyntaxError):
+            return False
+        for node in ast.walk(tree):
+            if isinstance(node, (ast.Set, ast.SetComp)):
+                return True
+            if isinstance(node, ast.Call) and isinstance(node.func, ast.Name) and node.func.id in ("set", "frozenset"):
+                return True
+        return False
+
     def _schedule(self, site: str, items: List[Any], key: Any) -> List[Any]:
-        """H1: canonicalise the identity-hashed order, then apply the session's permutation.
-        The permutation of one set of objects is fixed for the life of those objects, as it is
-        for a real set of the same objects."""
-        canon = sorted(items, key=key)
+        """H1.  While the code under test takes this order from a set of identity-hashed objects:
+        canonicalise it (sort by name: removes the dependence on addresses) and apply the session's
+        permutation; the permutation of one set of objects is fixed for the life of those objects,
+        as it is for a real set.  When the code fixes the order itself: leave it alone."""
         self.s1_stats["calls"] += 1
+        if not self.s1_free:
+            return items
+        canon = sorted(items, key=key)
         n = len(canon)
         if n < 2:
             return canon
@@ -299,9 +328,15 @@ class Session:
         fname = cid + ".teal"
         with open(os.path.join(self.scratch, fname), "w", encoding="utf-8") as f:
             f.write(self.source(cid))
+        skip = {fname}
         for extra in op.get("files", []):
             with open(os.path.join(self.scratch, extra["name"]), "w", encoding="utf-8") as f:
                 f.write(extra["text"])
+            skip.add(extra["name"])
+        for other in op.get("contracts", []):
+            with open(os.path.join(self.scratch, other + ".teal"), "w", encoding="utf-8") as f:
+                f.write(self.source(other))
+            skip.add(other + ".teal")
         argv = ["tealer"] + [a.replace("{C}", fname) for a in op["argv"]]
         old_argv = sys.argv
         sys.argv = argv
@@ -336,13 +371,14 @@ class Session:
             for n in sorted(names):
                 p = os.path.join(root, n)
                 rel = os.path.relpath(p, self.scratch)
-                if rel == fname or any(rel == x["name"] for x in op.get("files", [])):
+                if rel in skip:
                     continue
                 if n.endswith(".json"):
                     with open(p, encoding="utf-8") as f:
                         files.append([rel, f.read()])
                 else:
-                    files.append([rel, os.path.getsize(p)])
+                    with open(p, "rb") as fb:
+                        files.append([rel, hashlib.sha256(fb.read()).hexdigest()[:16]])
         ev["obs"] = {
             "stdout": observe.digest(out),
             "exit": code,
@@ -350,7 +386,7 @@ class Session:
         }
         if op.get("envelope") or ev["i"] in self.want_full:
             ev["stdout"] = out if len(out) < 400000 else out[:400000]
-            ev["files"] = [[r, c if isinstance(c, int) or len(c) < 400000 else c[:400000]] for r, c in files]
+            ev["files"] = [[r, c if len(c) < 400000 else c[:400000]] for r, c in files]
 
     def op_printer(self, op: Dict[str, Any], ev: Dict[str, Any]) -> None:
         from tealer.utils.command_line.common import init_tealer_from_single_contract
@@ -563,6 +599,7 @@ class Session:
             if tracer.mode == "detector":
                 ev["detector_events"] = tracer.detector_events
         ev["s1"] = dict(self.s1_stats)
+        ev["s1"]["free"] = self.s1_free
         if self.s1_perms:
             ev["s1"]["perms"] = self.s1_perms
         ev["cache1"] = self.cache_sizes()
